@@ -500,6 +500,32 @@ def pred_c11(ops, impl):
         m = re.fullmatch(r"exec (u\d) \(inst (\d+) \(\(w 6b 01\)( \(attr i 1\))?\) - (l\d+) (~|u\d) ~\)", op)
         if m and int(m.group(2)) in cur and out == "err":
             return "op %d: code id %s is stored but cannot be instantiated" % (n, m.group(2))
+    # empty labels are rejected; a repeated salted instantiation (same code, creator, salt) is rejected
+    salted = {}
+    app = "1"
+    for n, (op, out) in enumerate(zip(ops, impl)):
+        t = op.split()
+        if not t:
+            continue
+        if t[0] == "app":
+            app = t[1]
+        items = parse_sx(op) if t[0] in ("exec", "h-inst") else None
+        if not items:
+            continue
+        if items[0] == "exec" and len(items) > 2 and isinstance(items[2], list) and items[2] and items[2][0] == "inst" and len(items[2]) >= 7:
+            who, code, label, salt = items[1], items[2][1], items[2][4], items[2][6]
+        elif items[0] == "h-inst" and len(items) >= 8:
+            who, code, label, salt = items[2], items[1], items[5], items[7]
+        else:
+            continue
+        if label == "%" and out.startswith("ok"):
+            return "op %d: instantiation with an empty label succeeded" % n
+        if salt != "~":
+            key = (app, who, code, salt)
+            if out.startswith("ok"):
+                if key in salted:
+                    return "op %d: salted instantiation (code %s, creator %s, salt %s) succeeded twice (first at op %d)" % (n, code, who, salt, salted[key])
+                salted[key] = n
     return None
 
 
@@ -584,9 +610,23 @@ def pred_c08(ops, impl):
             if n + 1 < len(ops) and ops[n + 1].startswith("cstore %s ~ ~ asc" % c) and impl[n + 1] != out:
                 return "op %d: dump_wasm_raw(%s) = %s but contract_storage().range = %s" % (n, c, out[:100], impl[n + 1][:100])
             last[c] = out
-        elif t[0] == "dump":
-            for c, w in last.items():
-                pass
+        elif t[0] == "q-raw" and t[1] in last and n > 0:
+            # nothing ran since the dump_wasm_raw of that contract (only read ops in between)?
+            k = n - 1
+            fresh = False
+            while k >= 0:
+                tk = ops[k].split()
+                if tk and tk[0] == "wdump" and tk[1] == t[1]:
+                    fresh = True
+                    break
+                if not tk or tk[0] not in READ_OPS:
+                    break
+                k -= 1
+            if fresh:
+                recs = dict(kv.split("=") for kv in last[t[1]][1:-1].split(",") if kv)
+                want = recs.get(t[2], "-")
+                if out != want and out != "err":
+                    return "op %d: WasmQuery::Raw(%s, %s) = %s but the contract's state dump holds %s" % (n, t[1], t[2], out, want)
     # a transaction made only of storage operations of one contract leaves the other contracts' dumps alone
     dumps = {}
     target = None
